@@ -79,7 +79,6 @@ func H_C19_repeat() {
 	} else {
 		toks = parsers.VerifSymTokens(1 + vChoice("len", vParam("L")))
 	}
-	l := len(toks)
 	calc := NewExpressionCalculator()
 	var err error
 	if guarded(func() { err = calc.parser.VerifParseInitialTokens(toks) }) {
@@ -87,8 +86,8 @@ func H_C19_repeat() {
 	}
 	vAssume(err == nil)
 	kind := vParam("VALS")
-	env1 := c01Setup(l, kind)
-	env2 := c01Setup(l, kind)
+	env1 := c01Setup(toks, kind)
+	env2 := c01Setup(toks, kind)
 	env1b := &evalEnv{ops: env1.ops, funcs: env1.funcs, vars: env1.vars}
 	prog := snapProgram(calc)
 	vs1 := snapVars(env1)
